@@ -159,3 +159,13 @@ Proof.
   vm_compute. left. reflexivity.
 Qed.
 Print Assumptions C02_emplace_position_refuted.
+
+(* ... and erase(position) undoes it: the two operations are inverse on the represented list *)
+Theorem C02_emplace_position_then_erase_gives_back_the_list : forall L, wf_plist L = true ->
+  has_varying L = false -> all_triv L = true ->
+  forall v l offs, RepO L v l offs ->
+  forall i t, (i <= length l)%nat -> Z.of_nat (length l) < v_cap v ->
+  tuple_ok L (fixed_counts L (v_fixed v)) 0 t ->
+  Rep L (fst (erase L (fst (emplace_pos L v (Z.of_nat i) t)) (Z.of_nat i))) l.
+Proof. exact emplace_then_erase. Qed.
+Print Assumptions C02_emplace_position_then_erase_gives_back_the_list.
